@@ -19,6 +19,7 @@ import Hannibal.Monitor.C14
 import Hannibal.Monitor.C15
 import Hannibal.Monitor.C17
 import Hannibal.Monitor.C17R
+import Hannibal.Monitor.SendErr
 /- Registry: property id → monitor run on one actor's labels (index of first violation). -/
 namespace Hannibal.Driver
 open Hannibal
@@ -48,13 +49,15 @@ def runMonitor (pid : String) (c : MonCtx) (ls : List Label) : Option (Option Na
       -- "awaits complete with the termination result": Ok only after a graceful end, an error after a failure
       ff (monC04 c) ls, ff (monC06 c) ls,
       ff monC02c ls,                     -- a call whose message was handled to completion does not return an error
-      ff monC04p ls] ++ wfAll c ls))    -- a ping begun after an accepted stop returned never returns Ok
+      ff monC04p ls,                     -- a ping begun after an accepted stop returned never returns Ok
+      ff monSendErr ls] ++ wfAll c ls)) -- only operations begun after the end of the task are refused (`SendErr_holds`)
   | "C03" => some (firstSome ([ff (monC03 c) ls, ff (monC03q c) ls] ++ wfAll c ls))
   | "C04" => some (firstSome ([ff (monC04 c) ls, ff (monC04q c) ls,
       -- "halt and join resolve only after stopped has finished ... an error / None when the actor failed"
       ff (monC17 c) ls, ff (monC06 c) ls,
       ff monC02c ls,                     -- "every message whose submission completed before ... (its call returns Ok)"
-      ff monC04p ls] ++ wfAll c ls))    -- "no message submitted after an accepted stop request returned is ever handled": pings
+      ff monC04p ls,                     -- "no message submitted after an accepted stop request returned is ever handled": pings
+      ff monSendErr ls] ++ wfAll c ls)) -- the mailbox stays open through `stopped`: nothing is refused before the task ends
   | "C05" => some (firstSome ([ff (monC05 c) ls, ff (monC05q c) ls,
       ff (monC05d c) ls,          -- dropped calls are drained too
       ff (monC03 c) ls] ++ wfAll c ls))   -- "terminates gracefully exactly as after stop"
@@ -83,6 +86,7 @@ def runMonitor (pid : String) (c : MonCtx) (ls : List Label) : Option (Option Na
   | "C17" => some (firstSome ([ff (monC17 c) ls, ff (monC17n c) ls,
       ff (monC17r c) ls,          -- join / consume resolve once the actor has terminated
       ff (monC05 c) ls,           -- "otherwise an OwningAddr behaves as a strong handle"
+      ff monSendErr ls,           -- consume = stop + join is not refused while the actor is still stopping (`SendErr_holds`)
       ff monC17nwf ls] ++ wfAll c ls))   -- `consume(self)` is the last use of the owning address
   | _ => none
 
